@@ -19,8 +19,12 @@ package batchresource
 //  2. containers declare no native cpu/memory (batch pods carry their amounts in the batch-*
 //     resources), so a container the hook leaves untouched keeps the kubelet's values for a container
 //     without limits: unlimited;
-//  3. regular containers with unique names only (init containers / overhead are a TODO in the code and
-//     are not part of the statement);
+//  3. containers have unique DNS-label names. 7 % of the pods also have init containers: the code documents
+//     "TODO: count init container and pod overhead" and the statement's sums do not say whether they count, so
+//     for those pods the regular containers' sums are only a lower bound of the pod values, the pod-vs-sum
+//     relations are skipped, and an init container may be left untouched (CRI path: it is not in the
+//     annotation) or get the conversion of its own amounts (reconciler path). Pod overhead carries no batch
+//     resources and is not generated;
 //  4. the extended-resource-spec annotation is the one the pod webhook writes from the same pod spec
 //     (never stale): containers that declare no batch resource are omitted, an annotation is written
 //     only when at least one container declares one; it is serialised with the same
@@ -218,9 +222,15 @@ var (
 	c14PoolPositive = []int64{1, 9, 10, 999, 1000, 1001, 1000000, 1 << 40}
 	c14PoolExtra    = []int64{2, 3, 5, 11, 19, 20, 21, 1500, 2500, 262144, 1 << 30}
 	c14PoolTiny     = []int64{1, 1, 2, 3, 5, 9, 9, 10, 19, 20}
+	// 64-bit-scale byte amounts (memory only; a cpu amount whose microsecond conversion leaves int64 has no
+	// standard conversion - the kubelet's own helper overflows there - and is not generated)
+	c14PoolHugeMem = []int64{1<<53 + 1, 1 << 62, 1<<62 + 4095, 1<<63 - 1}
 )
 
-func c14GenAmt(r *kit.Rand, profile int) c14Amt {
+func c14GenAmt(r *kit.Rand, profile int, mem bool) c14Amt {
+	if mem && profile != 2 && r.Pct(4) {
+		return c14Amt{true, kit.Pick(r, c14PoolHugeMem)}
+	}
 	switch profile {
 	case 1: // everything declared and positive
 		if r.Pct(25) {
@@ -247,13 +257,16 @@ func c14GenAmt(r *kit.Rand, profile int) c14Amt {
 	}
 }
 
+// container names: DNS labels of different shapes (sort order, digits first, dashes); the index keeps them unique
+var c14NamePrefixes = []string{"c", "c", "c", "main-", "istio-proxy-", "a", "x9-", "0", "zz-"}
+
 func c14GenCtr(r *kit.Rand, i int, profile int) c14Ctr {
-	ct := c14Ctr{name: fmt.Sprintf("c%d", i)}
+	ct := c14Ctr{name: fmt.Sprintf("%s%d", kit.Pick(r, c14NamePrefixes), i)}
 	if profile != 1 && r.Pct(12) {
 		return ct // declares no batch resource at all (e.g. an injected sidecar)
 	}
-	ct.cpuReq, ct.cpuLim = c14GenAmt(r, profile), c14GenAmt(r, profile)
-	ct.memReq, ct.memLim = c14GenAmt(r, profile), c14GenAmt(r, profile)
+	ct.cpuReq, ct.cpuLim = c14GenAmt(r, profile, false), c14GenAmt(r, profile, false)
+	ct.memReq, ct.memLim = c14GenAmt(r, profile, true), c14GenAmt(r, profile, true)
 	if r.Pct(35) && ct.cpuLim.set { // the common shape: request == limit
 		ct.cpuReq = ct.cpuLim
 	}
@@ -269,9 +282,10 @@ func c14GenCtr(r *kit.Rand, i int, profile int) c14Ctr {
 
 type c14Pod struct {
 	ctrs      []c14Ctr
-	marking   string // "label:BE", "annotation-only:BE", "label:LS" ..., "none"
-	webhook   bool   // spec annotation written by the pod webhook; false: no annotation at all
-	emptyAnno bool   // nothing declared but an (empty) annotation is present
+	inits     []c14Ctr // init containers (the code: "TODO: count init container"; the statement does not decide them)
+	marking   string   // "label:BE", "annotation-only:BE", "label:LS" ..., "none"
+	webhook   bool     // spec annotation written by the pod webhook; false: no annotation at all
+	emptyAnno bool     // nothing declared but an (empty) annotation is present
 }
 
 func (p c14Pod) anyDeclared() bool {
@@ -287,12 +301,16 @@ func c14RL(cpu, mem c14Amt) corev1.ResourceList {
 	if !cpu.set && !mem.set {
 		return nil
 	}
+	// the same integral amount in the different notations a manifest can use (1k / 1000 / 1e3 / 1Ki ...)
+	fm := func(v int64) resource.Format {
+		return []resource.Format{resource.DecimalSI, resource.BinarySI, resource.DecimalExponent}[uint64(v)%3]
+	}
 	rl := corev1.ResourceList{}
 	if cpu.set {
-		rl[apiext.BatchCPU] = *resource.NewQuantity(cpu.v, resource.DecimalSI)
+		rl[apiext.BatchCPU] = *resource.NewQuantity(cpu.v, fm(cpu.v))
 	}
 	if mem.set {
-		rl[apiext.BatchMemory] = *resource.NewQuantity(mem.v, resource.BinarySI)
+		rl[apiext.BatchMemory] = *resource.NewQuantity(mem.v, fm(mem.v+1))
 	}
 	return rl
 }
@@ -315,6 +333,11 @@ func c14BuildPod(c *kit.Case, p c14Pod) *corev1.Pod {
 		pod.Spec.Containers = append(pod.Spec.Containers, corev1.Container{Name: ct.name, Resources: corev1.ResourceRequirements{
 			Requests: c14RL(ct.cpuReq, ct.memReq), Limits: c14RL(ct.cpuLim, ct.memLim)}})
 		pod.Status.ContainerStatuses = append(pod.Status.ContainerStatuses, corev1.ContainerStatus{Name: ct.name, ContainerID: "containerd://id-" + ct.name})
+	}
+	for _, ct := range p.inits {
+		pod.Spec.InitContainers = append(pod.Spec.InitContainers, corev1.Container{Name: ct.name, Resources: corev1.ResourceRequirements{
+			Requests: c14RL(ct.cpuReq, ct.memReq), Limits: c14RL(ct.cpuLim, ct.memLim)}})
+		pod.Status.InitContainerStatuses = append(pod.Status.InitContainerStatuses, corev1.ContainerStatus{Name: ct.name, ContainerID: "containerd://id-" + ct.name})
 	}
 	if p.webhook {
 		// rule 4. pkg/util.GetPodExtendedResources is the exported twin of the webhook's
@@ -395,14 +418,27 @@ type c14Cfg struct {
 
 var c14Ratios = []string{"", "0.5", "1", "1.0001", "1.5", "2", "4"}
 
+// rarer ratios: just above 1, two-decimal values as koord-manager writes them, other float notations, very large
+var c14RatiosRare = []string{"1.01", "1.10", "2.35", "1e0", "3", "10", "100", "1000000", "0.01"}
+
+// annotation values GetCPUNormalizationRatio rejects (parse error or <= 0): the rule is not updated. What is
+// "configured" then is not decided by the statement: such a state is never the last one of a history, and the
+// hooks are not checked while it is the current one.
+var c14RatiosIllegal = []string{"0", "-1", "abc", ""}
+
 // A rule update: one node-metadata state (the ratio annotation present with a value, or absent) fed to the
 // real parseRuleForNodeMeta, or one NodeSLO state fed to the real parseRuleForNodeSLO.
 type c14Step struct {
 	meta bool
 	val  string // meta: annotation value, "" = annotation absent; slo: mode name
+	// meta only: the annotation is PRESENT with a value GetCPUNormalizationRatio rejects (val "" = present but empty)
+	illegal bool
 }
 
 func (st c14Step) String() string {
+	if st.meta && st.illegal {
+		return fmt.Sprintf("node-meta(ILLEGAL ratio annotation %q)", st.val)
+	}
 	if st.meta {
 		return fmt.Sprintf("node-meta(ratio=%q)", st.val)
 	}
@@ -427,10 +463,14 @@ func c14CFSOn(sloMode string) bool { return sloMode != "suppress-on/cfsQuota" }
 func c14Apply(c *kit.Case, p *plugin, st c14Step) {
 	if st.meta {
 		node := &corev1.Node{ObjectMeta: metav1.ObjectMeta{Name: "n0", Annotations: map[string]string{"other": "x"}}}
-		if st.val != "" {
+		if st.val != "" || st.illegal {
 			node.Annotations[apiext.AnnotationCPUNormalizationRatio] = st.val
 		}
 		upd, err := p.parseRuleForNodeMeta(node)
+		if st.illegal {
+			c.Op("update %s -> updated=%v err=%v", st, upd, err)
+			return
+		}
 		if err != nil {
 			c.Harness("parseRuleForNodeMeta(%q): %v", st.val, err)
 		}
@@ -443,6 +483,9 @@ func c14Apply(c *kit.Case, p *plugin, st c14Step) {
 		spec = &slov1alpha1.NodeSLOSpec{}
 	case "suppress-on/cpuset":
 		spec = &slov1alpha1.NodeSLOSpec{ResourceUsedThresholdWithBE: &slov1alpha1.ResourceThresholdStrategy{Enable: ptr.To(true), CPUSuppressPolicy: slov1alpha1.CPUSetPolicy}}
+	case "suppress-off/cpuset":
+		spec = &slov1alpha1.NodeSLOSpec{ResourceUsedThresholdWithBE: &slov1alpha1.ResourceThresholdStrategy{Enable: ptr.To(false), CPUSuppressPolicy: slov1alpha1.CPUSetPolicy,
+			CPUSuppressThresholdPercent: ptr.To[int64](65), MemoryEvictThresholdPercent: ptr.To[int64](70)}}
 	case "suppress-on/cfsQuota":
 		spec = &slov1alpha1.NodeSLOSpec{ResourceUsedThresholdWithBE: &slov1alpha1.ResourceThresholdStrategy{Enable: ptr.To(true), CPUSuppressPolicy: slov1alpha1.CPUCfsQuotaPolicy}}
 	case "suppress-off/cfsQuota":
@@ -458,9 +501,11 @@ func c14Apply(c *kit.Case, p *plugin, st c14Step) {
 }
 
 var (
-	c14SLOModes = []string{"default-spec", "suppress-on/cpuset", "suppress-on/cpuset", "suppress-on/cfsQuota", "suppress-on/cfsQuota", "suppress-off/cfsQuota"}
-	// earlier states of a ratio history (the last state comes from c14Ratios)
-	c14HistRatios = []string{"", "", "1.00", "1", "0.50", "0.99", "1.02", "1.25", "1.5", "2", "2.00", "3.00", "4", "1.0001"}
+	// suppress-off/cpuset is what the states informer's merge with the default strategy yields for a NodeSLO
+	// that says nothing; default-spec (nil strategy) is handled by the code although the merge never produces it
+	c14SLOModes = []string{"default-spec", "suppress-off/cpuset", "suppress-off/cpuset", "suppress-on/cpuset", "suppress-on/cpuset", "suppress-on/cfsQuota", "suppress-on/cfsQuota", "suppress-on/cfsQuota", "suppress-off/cfsQuota"}
+	// earlier states of a ratio history (the last state comes from c14Ratios / c14RatiosRare)
+	c14HistRatios = []string{"", "", "1.00", "1", "0.50", "0.99", "1.02", "1.25", "1.5", "2", "2.00", "3.00", "4", "1.0001", "1.01", "10", "100", "0.01", "1e0"}
 )
 
 // c14RatioChangeOK: rule.go documents that UpdateCPUNormalizationRatio ignores a new ratio closer than
@@ -498,6 +543,11 @@ type c14Want struct {
 	mem                  int64
 	// pod level: unlimited only because of containers that declare nothing at all
 	cpuUnlOnlyBare, memUnlOnlyBare bool
+	// pod level: the sum of the declared memory limits is not representable in int64 (e.g. two containers with
+	// 4Ei each). The statement's "conversion of the sum" has no int64 value then; what remains decided is the
+	// relation: the pod is never tighter than one of its containers (unlimited, or >= the largest container).
+	memOverflow bool
+	memMaxCtr   int64
 }
 
 func c14WantCtr(c *kit.Case, ct c14Ctr, cfg c14Cfg) c14Want {
@@ -529,13 +579,23 @@ func c14WantPod(c *kit.Case, ctrs []c14Ctr, cfg c14Cfg) c14Want {
 			}
 		}
 		if l := ct.memLim.declared(); l > 0 {
-			sumMemLim += l
+			if l > (1<<63-1)-sumMemLim {
+				w.memOverflow = true
+			} else {
+				sumMemLim += l
+			}
+			if l > w.memMaxCtr {
+				w.memMaxCtr = l
+			}
 		} else {
 			memUnl = true
 			if !ct.bare() {
 				w.memUnlOnlyBare = false
 			}
 		}
+	}
+	if memUnl && !w.memUnlOnlyBare {
+		w.memOverflow = false // a container the hook sees is unlimited: the pod is unlimited anyway
 	}
 	w.cpuUnlOnlyBare = w.cpuUnlOnlyBare && cpuUnl
 	w.memUnlOnlyBare = w.memUnlOnlyBare && memUnl
@@ -570,11 +630,19 @@ type c14Flags struct{ quotaKnown, memKnown bool }
 // c14CheckValues compares the injected values with the oracle. The two shapes analysed as genuine
 // defects get their own narrow signatures and are reported without ending the case, so that they do
 // not mask the remaining checks.
-func c14CheckValues(c *kit.Case, level, where string, got protocol.Resources, w c14Want, cfg c14Cfg) (fl c14Flags) {
+//
+// lowerOnly (pod level of a pod that has init containers): the code documents "TODO: count init container and
+// pod overhead" and the statement's sums do not say whether init containers count, so the regular containers'
+// sums are only a LOWER bound there (a pod that also accounts for its init containers is not wrong).
+func c14CheckValues(c *kit.Case, level, where string, got protocol.Resources, w c14Want, cfg c14Cfg, lowerOnly bool) (fl c14Flags) {
 	if got.CPUShares == nil || got.CFSQuota == nil || got.MemoryLimit == nil {
 		c.Fail("C14/"+level+"/value-not-injected", "%s: best-effort pod with a visible batch spec, but not every value was injected: %s", where, c14Res(got))
 	}
-	if *got.CPUShares != w.shares {
+	if lowerOnly {
+		if *got.CPUShares < w.shares {
+			c.Fail("C14/"+level+"/cpu-shares", "%s: cpu shares %d, below the standard conversion %d of the regular containers' declared batch-cpu requests", where, *got.CPUShares, w.shares)
+		}
+	} else if *got.CPUShares != w.shares {
 		c.Fail("C14/"+level+"/cpu-shares", "%s: cpu shares %d, the standard conversion of the declared batch-cpu request gives %d", where, *got.CPUShares, w.shares)
 	}
 	q := *got.CFSQuota
@@ -583,6 +651,8 @@ func c14CheckValues(c *kit.Case, level, where string, got protocol.Resources, w 
 		if q != w.quota.val {
 			c.Count("ratio_float_ambiguous_accepted", 1)
 		}
+	case lowerOnly && c14GE(q, w.quota.val):
+		c.Count("init_containers_pod_value_above_regular_sum", 1)
 	case w.quota.belowMin && q > 0 && q < c14MinQuotaUs:
 		fl.quotaKnown = true
 		c.Report("C14/"+level+"/cfs-quota-below-kernel-minimum-after-ratio",
@@ -597,7 +667,17 @@ func c14CheckValues(c *kit.Case, level, where string, got protocol.Resources, w 
 	}
 	m := *got.MemoryLimit
 	switch {
+	case w.memOverflow:
+		fl.memKnown = true // no exact sum to relate to
+		if m == c14Unlimited || m >= w.memMaxCtr {
+			c.Count("memory_sum_overflow_handled", 1)
+		} else {
+			c.Report("C14/pod/memory-limit-sum-overflows-int64",
+				"%s: the containers' declared batch-memory limits sum to more than int64 can hold (largest single limit %d); the pod memory limit came out as %d, which is tighter than that container (wrapped-around sum)", where, w.memMaxCtr, m)
+		}
 	case m == w.mem:
+	case lowerOnly && c14GE(m, w.mem):
+		c.Count("init_containers_pod_value_above_regular_sum", 1)
 	case level == "pod" && w.memUnlOnlyBare && m > 0:
 		fl.memKnown = true
 		c.Report("C14/pod/memory-limited-although-a-container-declares-nothing",
@@ -625,18 +705,28 @@ var c14Transports = []string{"proxy", "nri", "reconciler"}
 
 func TestVerifC14Hook(t *testing.T) {
 	kit.Run(t, kit.Config{Property: "C14", Unit: "hook", Quick: 5000, Thorough: 500000,
-		Rule: "one generated pod per case: 1-5 containers, batch-cpu/batch-memory request and limit each from {missing, 0, 1, 9, 10, 999, 1000, 1001, 10^6, 2^40} plus neighbours and random 1..4096 (request <= limit), some containers declaring nothing; marked BE by the QoS label, by the same key as an annotation only, or not BE (LS/LSR/LSE/SYSTEM/no label); spec annotation as the webhook writes it or absent; plugin configured through the real parseRuleForNodeSLO (cfs switch) and parseRuleForNodeMeta (ratio none/0.5/1/1.0001/1.5/2/4), in 40 % of the cases by a HISTORY of 2-4 node-metadata states (ratio absent / <=1 / >1 / changed, steps larger than the documented 0.01 update epsilon or exact repeats) and 1-3 NodeSLO states (switch flips) interleaved on the same instance, the oracle using only the last state of each, with the hooks also run and checked after every update in half of the histories; SetPodResources, SetContainerResources and the six single-value parts run on contexts built by FromProxy, FromNri and FromReconciler. distinct = (container count, sorted per-container unlimited pattern, clamp hits, ratio class, cfs switch, marking class, spec mode); non-trivial = BE-labelled pod with a visible spec and >= 2 containers in which a clamp, a ratio rounding or an unlimited propagation was exercised; evaluations = contexts checked"},
+		Rule: "one generated pod per case: 1-5 containers (8 %: 6-14; names of different DNS-label shapes), 7 % with 1-2 init containers, batch-cpu/batch-memory request and limit each from {missing, 0, 1, 9, 10, 999, 1000, 1001, 10^6, 2^40} plus neighbours and random 1..4096, memory also 2^53+1 / 2^62 / 2^63-1 (request <= limit; integral amounts in decimal, binary and exponent notation), some containers declaring nothing; marked BE by the QoS label, by the same key as an annotation only, or not BE (LS/LSR/LSE/SYSTEM/no label/label values that are no QoS class); spec annotation as the webhook writes it or absent; plugin configured through the real parseRuleForNodeSLO (cfs switch) and parseRuleForNodeMeta (ratio none/0.5/1/1.0001/1.5/2/4, rarer 0.01/1.01/1.10/2.35/1e0/3/10/100/10^6), in 40 % of the cases by a HISTORY of 2-4 (10 %: 5-8) node-metadata states (ratio absent / <=1 / >1 / changed, steps larger than the documented 0.01 update epsilon or exact repeats, rejected annotation values as non-final steps) and 1-3 (4-6) NodeSLO states (switch flips; suppress on/off x cpuset/cfsQuota, nil strategy) interleaved on the same instance, the oracle using only the last state of each, with the hooks also run and checked after every update in half of the histories; SetPodResources, SetContainerResources and the six single-value parts run on contexts built by FromProxy, FromNri and FromReconciler. distinct = (container count, sorted per-container unlimited pattern, clamp hits, ratio class, cfs switch, marking class, spec mode); non-trivial = BE-labelled pod with a visible spec and >= 2 containers in which a clamp, a ratio rounding or an unlimited propagation was exercised; evaluations = contexts checked"},
 		func(c *kit.Case) {
 			r := c.R
 			// ---- generate
 			profile := r.Weighted(55, 25, 20)
 			n := r.Range(1, 5)
-			if profile == 2 {
+			switch {
+			case profile == 2:
 				n = r.Range(1, 3)
+			case r.Pct(8):
+				n = r.Range(6, 14) // many containers (sidecar-heavy pods)
 			}
 			p := c14Pod{webhook: !r.Pct(12), emptyAnno: r.Pct(30)}
 			for i := 0; i < n; i++ {
 				p.ctrs = append(p.ctrs, c14GenCtr(r, i, profile))
+			}
+			if r.Pct(7) { // init containers: declaring batch resources or not
+				for i, ni := 0, r.Range(1, 2); i < ni; i++ {
+					ic := c14GenCtr(r, i, profile)
+					ic.name = "init-" + ic.name
+					p.inits = append(p.inits, ic)
+				}
 			}
 			switch r.Weighted(62, 8, 30) {
 			case 0:
@@ -644,53 +734,70 @@ func TestVerifC14Hook(t *testing.T) {
 			case 1:
 				p.marking = "annotation-only:BE"
 			default:
-				p.marking = kit.Pick(r, []string{"label:LS", "label:LSR", "label:LSE", "label:SYSTEM", "none", "none-nil-labels"})
+				// the API's QoS classes other than BE, no label, and label values that are no QoS class at all
+				// (apis/extension/qos.go: anything but the five exact names is QoSNone)
+				p.marking = kit.Pick(r, []string{"label:LS", "label:LSR", "label:LSE", "label:SYSTEM", "none", "none-nil-labels",
+					"label:LS", "label:LSR", "none", "label:be", "label:BestEffort", "label:", "label:Be"})
 			}
 			// ---- rule states. 60 %: one state of each kind at most (a koordlet that just started);
 			// 40 %: a history of 2-4 node-metadata states and 1-3 NodeSLO states on the same plugin
 			// instance, interleaved in any order. The oracle uses ONLY the last state of each kind
 			// ("when one above 1 is configured": configured now, not earlier).
 			cfg := c14Cfg{ratioStr: kit.Pick(r, c14Ratios), cfsOn: true}
+			if r.Pct(18) {
+				cfg.ratioStr = kit.Pick(r, c14RatiosRare)
+			}
 			cfg.ratio = c14ParseRatio(c, cfg.ratioStr)
 			history := r.Pct(40)
 			var metaSteps, sloSteps []c14Step
 			if !history {
 				cfg.slo = kit.Pick(r, append([]string{"rule-never-set"}, c14SLOModes...))
 				if cfg.slo != "rule-never-set" {
-					sloSteps = []c14Step{{false, cfg.slo}}
+					sloSteps = []c14Step{{val: cfg.slo}}
 				}
 				if cfg.ratioStr != "" || cfg.slo != "rule-never-set" { // else: node metadata not seen yet either
-					metaSteps = []c14Step{{true, cfg.ratioStr}}
+					metaSteps = []c14Step{{meta: true, val: cfg.ratioStr}}
 				}
 			} else {
 				cfg.slo = kit.Pick(r, c14SLOModes)
 				nm, ns := r.Range(2, 4), r.Range(1, 3)
-				prev := float64(-2) // nothing parsed yet
+				if r.Pct(10) { // long histories
+					nm, ns = r.Range(5, 8), r.Range(4, 6)
+				}
+				prev := float64(-2) // the last ACCEPTED ratio state (-2: nothing parsed yet)
+				prevStr := ""
 				for i := 0; i < nm-1; i++ {
+					if r.Pct(8) {
+						// an annotation value the parser rejects: the cached ratio stays; never the last state
+						metaSteps = append(metaSteps, c14Step{meta: true, val: kit.Pick(r, c14RatiosIllegal), illegal: true})
+						continue
+					}
 					var cand string
 					for try := 0; ; try++ {
 						cand = kit.Pick(r, c14HistRatios)
-						if r.Pct(10) && i > 0 {
-							cand = metaSteps[i-1].val // a node update that does not change the ratio
+						if r.Pct(10) && prev != -2 {
+							cand = prevStr // a node update that does not change the ratio
 						}
 						v := c14ParseRatio(c, cand)
-						okPrev := prev == -2 || c14RatioChangeOK(prev, v)
-						okNext := i != nm-2 || c14RatioChangeOK(v, cfg.ratio)
-						if okPrev && okNext {
-							prev = v
+						if prev == -2 || c14RatioChangeOK(prev, v) {
+							prev, prevStr = v, cand
 							break
 						}
-						if try > 200 {
-							c.Harness("cannot place a ratio between %v and %v", prev, cfg.ratio)
+						if try > 400 {
+							c.Harness("cannot place a ratio after %v", prev)
 						}
 					}
-					metaSteps = append(metaSteps, c14Step{true, cand})
+					metaSteps = append(metaSteps, c14Step{meta: true, val: cand})
 				}
-				metaSteps = append(metaSteps, c14Step{true, cfg.ratioStr})
+				if prev != -2 && !c14RatioChangeOK(prev, cfg.ratio) {
+					// keep the last transition clear of the update epsilon as well: the annotation is removed first
+					metaSteps = append(metaSteps, c14Step{meta: true, val: ""})
+				}
+				metaSteps = append(metaSteps, c14Step{meta: true, val: cfg.ratioStr})
 				for i := 0; i < ns-1; i++ {
-					sloSteps = append(sloSteps, c14Step{false, kit.Pick(r, c14SLOModes)})
+					sloSteps = append(sloSteps, c14Step{val: kit.Pick(r, c14SLOModes)})
 				}
-				sloSteps = append(sloSteps, c14Step{false, cfg.slo})
+				sloSteps = append(sloSteps, c14Step{val: cfg.slo})
 			}
 			cfg.cfsOn = c14CFSOn(cfg.slo)
 			// interleave, keeping the order within each kind
@@ -714,7 +821,7 @@ func TestVerifC14Hook(t *testing.T) {
 			for i, ct := range p.ctrs {
 				ctrStr[i] = ct.String()
 			}
-			c.Op("pod marking=%s containers=%v webhook=%v annotation=%q", p.marking, ctrStr, p.webhook, pod.Annotations[apiext.AnnotationExtendedResourceSpec])
+			c.Op("pod marking=%s containers=%v init-containers=%v webhook=%v annotation=%q", p.marking, ctrStr, p.inits, p.webhook, pod.Annotations[apiext.AnnotationExtendedResourceSpec])
 			c.Op("rule updates %v history=%v hooks-between=%v; last: slo=%s ratio=%q (cfs quota on=%v)", steps, history, hooksBetween, cfg.slo, cfg.ratioStr, cfg.cfsOn)
 
 			labelBE := p.marking == "label:BE"
@@ -781,7 +888,8 @@ func TestVerifC14Hook(t *testing.T) {
 					// combined functions, the cgroup reconciler registers the parts one per cgroup file: both
 					// inject, so wherever the statement fixes the values (below) the parts must give the same.
 					partsDiffer := ""
-					{
+					partsRan := len(p.ctrs) <= 5 || tname == betweenTransport // large pods: the parts on one transport only (cost)
+					if partsRan {
 						var merged protocol.Resources
 						a, b, d := c14PodCtx(tname, pod), c14PodCtx(tname, pod), c14PodCtx(tname, pod)
 						e1, e2, e3 := pl.SetPodCPUShares(a), pl.SetPodCFSQuota(b), pl.SetPodMemoryLimit(d)
@@ -814,7 +922,9 @@ func TestVerifC14Hook(t *testing.T) {
 						if partsDiffer != "" {
 							c.Fail("C14/parts/differ-from-combined", "%s: %s", tr, partsDiffer)
 						}
-						c.Count("parts_vs_combined_checks", 1+len(p.ctrs))
+						if partsRan {
+							c.Count("parts_vs_combined_checks", 1+len(p.ctrs))
+						}
 					}
 
 					// ---- decide what the statement demands for this pod
@@ -829,7 +939,14 @@ func TestVerifC14Hook(t *testing.T) {
 								c.Fail("C14/non-be/container-touched", "%s: container %s of a pod marked %s (not best-effort) got %s", tr, ct.name, p.marking, c14Res(ctrGot[i]))
 							}
 						}
-						c.Count("non_be_untouched_checks", 1+len(p.ctrs))
+						for _, ic := range p.inits {
+							cctx := c14CtrCtx(tname, pod, ic.name)
+							_ = pl.SetContainerResources(cctx)
+							if !reflect.DeepEqual(cctx.Response, protocol.ContainerResponse{}) {
+								c.Fail("C14/non-be/container-touched", "%s: init container %s of a pod marked %s (not best-effort) got %s", tr, ic.name, p.marking, c14Res(cctx.Response.Resources))
+							}
+						}
+						c.Count("non_be_untouched_checks", 1+len(p.ctrs)+len(p.inits))
 						checkParts()
 						continue
 					case annoOnly && !anyTouched:
@@ -864,7 +981,11 @@ func TestVerifC14Hook(t *testing.T) {
 
 					// ---- values
 					where := fmt.Sprintf("%s/pod", tr)
-					podFl := c14CheckValues(c, "pod", where, podGot, wantPod, cfg)
+					hasInit := len(p.inits) > 0
+					if hasInit {
+						c.Count("pods_with_init_containers_checked", 1)
+					}
+					podFl := c14CheckValues(c, "pod", where, podGot, wantPod, cfg, hasInit)
 					anyKnown := podFl.quotaKnown
 					for i, ct := range p.ctrs {
 						where := fmt.Sprintf("%s/container %s", tr, ct)
@@ -884,8 +1005,31 @@ func TestVerifC14Hook(t *testing.T) {
 							}
 							continue
 						}
-						fl := c14CheckValues(c, "container", where, ctrGot[i], wantCtr[i], cfg)
+						fl := c14CheckValues(c, "container", where, ctrGot[i], wantCtr[i], cfg, false)
 						anyKnown = anyKnown || fl.quotaKnown
+					}
+					// init containers: omitted from the annotation (webhook TODO), so the CRI/NRI path leaves them
+					// untouched while the reconciler path reads the pod spec. Either is accepted; values that ARE
+					// injected must be the conversion of what that init container declares.
+					for _, ic := range p.inits {
+						cctx := c14CtrCtx(tname, pod, ic.name)
+						_ = pl.SetContainerResources(cctx)
+						g := cctx.Response.Resources
+						c.Op("%s init container %s -> %s", tr, ic.name, c14Res(g))
+						where := fmt.Sprintf("%s/init container %s", tr, ic)
+						switch {
+						case reflect.DeepEqual(cctx.Response, protocol.ContainerResponse{}):
+							c.Count("init_container_left_untouched", 1)
+						case ic.bare():
+							if (g.CPUShares != nil && *g.CPUShares != c14MinShares) || (g.CFSQuota != nil && *g.CFSQuota != c14Unlimited) ||
+								(g.MemoryLimit != nil && *g.MemoryLimit != c14Unlimited) {
+								c.Fail("C14/container/limited-although-nothing-declared", "%s: declares no batch resource but got %s", where, c14Res(g))
+							}
+							c.Count("init_container_injected", 1)
+						default:
+							c14CheckValues(c, "container", where, g, c14WantCtr(c, ic, cfg), cfg, false)
+							c.Count("init_container_injected", 1)
+						}
 					}
 
 					// ---- relations on the OBSERVED values
@@ -907,7 +1051,7 @@ func TestVerifC14Hook(t *testing.T) {
 						if !c14GE(*podGot.CFSQuota, *g.CFSQuota) {
 							c.Fail("C14/relation/pod-cfs-quota-tighter-than-container", "%s: pod cfs quota %d < container %s cfs quota %d", tr, *podGot.CFSQuota, ct, *g.CFSQuota)
 						}
-						if !c14GE(*podGot.MemoryLimit, *g.MemoryLimit) {
+						if !podFl.memKnown && !c14GE(*podGot.MemoryLimit, *g.MemoryLimit) {
 							c.Fail("C14/relation/pod-memory-tighter-than-container", "%s: pod memory limit %d < container %s memory limit %d", tr, *podGot.MemoryLimit, ct, *g.MemoryLimit)
 						}
 						c.Count("relations_pod_ge_container", 2)
@@ -923,7 +1067,7 @@ func TestVerifC14Hook(t *testing.T) {
 							sumM += *g.MemoryLimit
 						}
 					}
-					if allQ && nResp == len(p.ctrs) && !anyKnown {
+					if allQ && nResp == len(p.ctrs) && !anyKnown && !hasInit {
 						pq := *podGot.CFSQuota
 						if pq == c14Unlimited {
 							if cfg.cfsOn {
@@ -946,7 +1090,7 @@ func TestVerifC14Hook(t *testing.T) {
 							}
 						}
 					}
-					if allM && nResp == len(p.ctrs) && !podFl.memKnown {
+					if allM && nResp == len(p.ctrs) && !podFl.memKnown && !hasInit {
 						if pm := *podGot.MemoryLimit; pm != sumM {
 							c.Fail("C14/relation/pod-memory-not-sum", "%s: pod memory limit %d, sum of container limits %d", tr, pm, sumM)
 						}
@@ -963,6 +1107,9 @@ func TestVerifC14Hook(t *testing.T) {
 					}
 					if wantPod.quota.belowMin {
 						c.Count("quota_below_minimum_after_ratio_pod", 1)
+					}
+					if wantPod.memOverflow {
+						c.Count("memory_sum_beyond_int64_pods", 1)
 					}
 					if wantPod.sharesMin {
 						c.Count("shares_min_clamp_hit", 1)
@@ -1013,11 +1160,20 @@ func TestVerifC14Hook(t *testing.T) {
 
 			// ---- apply the rule updates (hooks in between in some histories), then the full check
 			cur := c14Cfg{ratio: -1, cfsOn: true, slo: "rule-never-set"} // newRule(): cfs quota on, no ratio
+			ratioUndecided := false
 			for i, st := range steps {
 				prevRatio, prevOn := cur.ratio, cur.cfsOn
 				hadSLO := cur.slo != "rule-never-set"
 				c14Apply(c, pl, st)
+				if st.meta && st.illegal {
+					// rejected annotation: the cached ratio stays; which ratio is "configured" now is not decided by
+					// the statement, so the hooks are not checked until the next accepted node state
+					c.Count("hist_ratio_illegal_annotation_step", 1)
+					ratioUndecided = true
+					continue
+				}
 				if st.meta {
+					ratioUndecided = false
 					if metaSeen := cur.metaSeen; metaSeen && history {
 						a, b := c14RatioClass(prevRatio), c14RatioClass(c14ParseRatio(c, st.val))
 						k := a + "_to_" + b
@@ -1038,7 +1194,9 @@ func TestVerifC14Hook(t *testing.T) {
 					}
 					cur.slo, cur.cfsOn = st.val, on
 				}
-				if hooksBetween && i < len(steps)-1 {
+				if hooksBetween && i < len(steps)-1 && ratioUndecided {
+					c.Count("hist_intermediate_check_skipped_ratio_undecided", 1)
+				} else if hooksBetween && i < len(steps)-1 {
 					runCheck(cur, []string{betweenTransport}, fmt.Sprintf("@after-update-%d", i+1), false)
 				}
 			}
